@@ -40,6 +40,7 @@ for v in ('A', 'B', 'C', 'D'):
                 pr['Tc'] = generic.condition_leaf_counts(f)
             if cv:
                 pr['V'] = cv
+                pr['Vs'] = generic.callee_sequence(f)
             wf = generic.fields_written(f)
             if wf:
                 pr['Wf'] = wf
